@@ -5,31 +5,53 @@ import ast
 
 import networkx as nx
 
+from ..cfg import CFG
 from ..loops import dotted
-from ..repo import Repo, loc, short, AnalysisError, param_names
+from ..repo import Repo, loc, short, AnalysisError, param_names, bind_call
 from ..resolve import Resolver
 
 EXPLANATION = (
     "Bit-identity of two runs is a runtime property (XLA, environment internals) and is not decided. Decided is the cause-level sentence of "
     "the property - `no result depends on unseeded global randomness, on time, or on the iteration order of unordered containers` - over the "
     "call-graph closure of every train_* / create_*_state entry point: (R1) no call into a global / OS entropy source (np.random.<fn> other "
-    "than default_rng, stdlib random, os.urandom, uuid, secrets, builtin hash / id used as a value); (R2) every RNG constructor or seeding "
-    "call has an argument and that argument is built only from parameters, literals and arithmetic - no call, no time; (R3) iteration over / "
-    "list() of a set only where its elements are integers by construction (int hashing is not randomised, so the order is a function of the "
-    "operation history); (R4) time.* is called only inside rl_blox/logging (wall-clock fields of records and checkpoint names). PRNG-key "
-    "reuse is deliberately not a rule: it correlates draws but is deterministic."
+    "than the seedable generators, stdlib random, os.urandom / getpid, uuid, secrets; builtin hash of a string used as a value - hash of an "
+    "integer is the integer, id(a) == id(b) is an identity test, a value that only reaches a log / exception message is no result); (R2) every "
+    "RNG constructor or seeding call (positional or keyword) has an argument and no call inside that argument reads an entropy source or the "
+    "clock - conversions, array / key library functions, functions of this package and draws from a generator object are functions of their "
+    "arguments, any other call is undecided; (R3) iteration over / list() of a set only where its elements are integers by construction (int "
+    "hashing is not randomised, so the order is a function of the operation history) unless the consumer does not see the order (all / any / "
+    "set / sorted / min / max / len, a loop of assertions); (R4) a wall-clock reader (time.time, perf_counter, datetime.now, ...) outside "
+    "rl_blox/logging is followed to its uses: handed to the logger interface / print / a progress bar it is one of the wall-clock fields the "
+    "property sets aside, deciding a branch that holds more than logging or seeding a generator it is a violation, anything else (stored, "
+    "returned, handed to other code) is undecided. A violation is only reported on such positive evidence; unreadable forms are undecided. "
+    "PRNG-key reuse is deliberately not a rule: it correlates draws but is deterministic."
 )
 TRUSTED = ["CPython: hash(int) is not salted, so set-of-int iteration order is a function of the insertion history", "jax.random / numpy Generator are deterministic functions of their key / seed"]
 RULES = {
-    "R1-forbidden-sources": "no call to np.random.<global fn>, random.*, os.urandom, uuid.*, secrets.*, hash(), id() in the closure of the training entry points",
-    "R2-seed-provenance": "default_rng / jax.random.key / PRNGKey / nnx.Rngs / env.reset(seed=) / action_space.seed are always given an argument made of parameters, literals and arithmetic only",
-    "R3-unordered-iteration": "sets that are iterated / listed hold integers by construction (rng.choice(n), range, validated task ids, set algebra of those)",
-    "R4-time-confinement": "time.* / datetime.* are called only in rl_blox/logging/",
+    "R1-forbidden-sources": "no call to np.random.<global fn>, random.<global fn>, os.urandom / getpid, uuid.*, secrets.* and no hash(<string>) used as a value in the closure of the training entry points",
+    "R2-seed-provenance": "default_rng / jax.random.key / PRNGKey / nnx.Rngs / seedable generators / env.reset(seed=) / action_space.seed are always given an argument (not None) in which no call reads an entropy source or the clock; the seeded / sampled action space is the one of the environment the routine was given or steps; a seed parameter defaulting to None is passed at every construction site",
+    "R3-unordered-iteration": "sets whose iteration order is observed hold integers by construction (rng.choice(n), range, validated task ids, set algebra of those)",
+    "R4-time-confinement": "outside rl_blox/logging/ a wall-clock value only reaches the logger interface, print or a progress bar: it neither decides a branch that holds more than logging nor seeds a generator",
     "R5-uninitialised-storage": "no method reads a slot of a numpy.empty storage ahead of writing it (same index, no fill-state guard): on the first pass through the ring that slot was never written",
 }
 
 RNG_CTORS = {"numpy.random.default_rng", "jax.random.key", "jax.random.PRNGKey", "flax.nnx.Rngs"}
-NP_GLOBAL_OK = {"default_rng", "Generator", "SeedSequence", "PCG64", "BitGenerator"}
+# generators that are deterministic functions of the seed they are given (and draw OS entropy without one): judged by R2, not by R1
+SEEDED_GENERATORS = {"numpy.random.RandomState", "numpy.random.MT19937", "numpy.random.Philox", "numpy.random.SFC64", "numpy.random.PCG64", "numpy.random.PCG64DXSM", "random.Random"}
+NP_GLOBAL_OK = {"default_rng", "Generator", "SeedSequence", "PCG64", "BitGenerator"} | {x.rsplit(".", 1)[1] for x in SEEDED_GENERATORS if x.startswith("numpy.")}
+# functions of the time / datetime modules that read the wall clock (the rest - timedelta, strptime, sleep, ... - are functions of their arguments)
+CLOCK_READERS = {"time.time", "time.time_ns", "time.perf_counter", "time.perf_counter_ns", "time.monotonic", "time.monotonic_ns", "time.process_time", "time.process_time_ns",
+                 "time.thread_time", "time.thread_time_ns", "time.clock_gettime", "time.clock_gettime_ns", "datetime.datetime.now", "datetime.datetime.utcnow", "datetime.datetime.today", "datetime.date.today"}
+CLOCK_UNLESS_ARGS = {"time.localtime": 1, "time.gmtime": 1, "time.ctime": 1, "time.asctime": 1, "time.strftime": 2}   # read the clock unless that many arguments are given
+CLOCK_FREE = {"time.sleep", "time.strptime", "time.mktime", "time.struct_time", "datetime.timedelta", "datetime.datetime", "datetime.date", "datetime.time", "datetime.timezone",
+              "datetime.datetime.fromtimestamp", "datetime.datetime.utcfromtimestamp", "datetime.datetime.strptime", "datetime.datetime.fromisoformat", "datetime.datetime.combine",
+              "datetime.date.fromtimestamp", "datetime.date.fromisoformat"}
+# calls a seed may pass through: value-transparent builtins, array / key libraries (deterministic functions of their arguments; their random sub-packages are judged separately)
+SEED_BUILTINS = {"int", "float", "abs", "min", "max", "round", "len", "sum", "pow", "divmod", "bool", "tuple", "list", "range"}
+SEED_LIBS = ("numpy.", "jax.", "flax.", "math.", "operator.", "functools.", "itertools.", "optax.", "chex.")
+SEED_METHODS = {"integers", "spawn", "generate_state", "item", "astype", "tolist", "squeeze", "sum", "bit_length", "__index__", "__int__"}   # of a generator / array / int that is itself judged where it is made
+VALUE_TRANSPARENT = {"int", "float", "str", "repr", "round", "abs", "format", "min", "max", "divmod", "bool"}
+PROGRESS_METHODS = {"set_description", "set_description_str", "set_postfix", "set_postfix_str", "write", "debug", "info", "warning", "error", "exception", "critical"}   # tqdm, logging.Logger
 
 
 def entry_points(repo):
@@ -43,6 +65,8 @@ def entry_points(repo):
 
 
 def run(ck, repo: Repo, tier: str):
+    global _REPO
+    _REPO = repo
     res = Resolver(repo)
     g = res.call_graph()
     eps = entry_points(repo)
@@ -87,85 +111,110 @@ def run(ck, repo: Repo, tier: str):
     ck.extra["call_graph"] = dict(res.cg_stats)
     n_calls = n_rng = n_sets = n_spaces = 0
     undecided_sets = []
+    sinks = _logging_sinks(repo)
     for q in sorted(closure):
         fn, mi = funcs[q]
         if "<locals>" in q:
             continue  # nested defs are walked with their parent
         in_logging = mi.name.startswith("rl_blox.logging")
         params = set(param_names(fn))
+        local = _local_names(fn)
+        stepped = None
         for n in ast.walk(fn):
             if not isinstance(n, ast.Call):
                 continue
             n_calls += 1
             f = n.func
-            d = repo.resolve_expr(mi, f) if isinstance(f, (ast.Name, ast.Attribute)) else None
+            # a name bound inside the routine (parameter, local) hides the module-level import of the same name
+            d = repo.resolve_expr(mi, f) if isinstance(f, (ast.Name, ast.Attribute)) and _root_name(f) not in local else None
             where = loc(mi, n)
             # R1
             if d:
-                bad = None
-                if d.startswith("numpy.random.") and d.split(".")[2] not in NP_GLOBAL_OK:
-                    bad = "numpy's global RandomState (not seeded by the routine)"
-                elif d.startswith("random.") and mi.imports.get("random") == "random":
-                    bad = "the stdlib global random generator"
-                elif d in ("os.urandom",) or d.startswith("uuid.") or d.startswith("secrets."):
-                    bad = "an OS entropy source"
+                bad = _entropy_source(d)
                 if bad:
                     ck.ob("R1-forbidden-sources", q, f"call:{d}", False, short(n, 70), f"`{d}` draws from {bad}: two runs with equal seeds differ", where)
-                # R4
-                if (d.startswith("time.") or d.startswith("datetime.")) and not in_logging:
-                    ck.ob("R4-time-confinement", q, f"call:{d}", False, short(n, 70), "wall-clock time is read outside rl_blox/logging: results may depend on time", where)
-            if isinstance(f, ast.Name) and f.id in ("hash", "id") and f.id not in params and not isinstance(getattr(n, "_parent", None), ast.Expr):
-                ck.ob("R1-forbidden-sources", q, f"call:{f.id}", False, short(n, 70), f"builtin {f.id}() of objects / strings is process-dependent (hash randomisation / addresses)", where)
+                # R4: the wall clock may be read for what the property sets aside (wall-clock fields of log records, progress output); a
+                # violation is a clock value that decides a branch holding more than logging, or that seeds a generator
+                if not in_logging and (d.startswith("time.") or d.startswith("datetime.")):
+                    clock = _reads_clock(d, n)
+                    if clock is None:
+                        undecided_sets.append(f"{q}: `{short(n, 50)}` - not known whether `{d}` reads the wall clock (unrecognised form)")
+                    elif clock:
+                        uses = _value_uses(repo, mi, fn, n, sinks)
+                        ev = [u for u in uses if u[0] in ("test", "rng")]
+                        if ev:
+                            why = "decides a branch that holds more than logging" if ev[0][0] == "test" else "seeds a random generator"
+                            ck.ob("R4-time-confinement", q, f"call:{d}", False, short(n, 70), f"wall-clock time is read outside rl_blox/logging and {why} (`{short(ev[0][1], 60)}`): results depend on time", where)
+                        elif any(u[0] == "other" for u in uses):
+                            u_ = next(u for u in uses if u[0] == "other")
+                            undecided_sets.append(f"{q}: the wall-clock value `{short(n, 40)}` is handed to `{short(u_[1], 50)}` - whether a result depends on it is not decided (unrecognised form)")
+                        else:
+                            ck.ob("R4-time-confinement", q, f"call:{d}", True, short(n, 70), "", where)
+            if isinstance(f, ast.Name) and f.id in ("hash", "id") and f.id not in local and repo.resolve_name(mi, f.id) is None and len(n.args) == 1 and not n.keywords:
+                verdict, why_ = _process_dependent_builtin(repo, mi, fn, n, sinks)
+                if verdict is False:
+                    ck.ob("R1-forbidden-sources", q, f"call:{f.id}", False, short(n, 70), f"builtin {f.id}() of {why_} is process-dependent (hash randomisation / addresses) and its value is used by the routine", where)
+                elif verdict is None:
+                    undecided_sets.append(f"{q}: `{short(n, 50)}` - {why_} (unrecognised form)")
             # R2
-            is_ctor = d in RNG_CTORS
-            seed_kw = None
+            is_ctor = d in RNG_CTORS or d in SEEDED_GENERATORS
+            seed_args = None
+            packs = any(isinstance(a_, ast.Starred) for a_ in n.args) or any(k.arg is None for k in n.keywords)
+            if is_ctor:
+                # jax.random.key(seed, *, impl) / default_rng(seed) / Rngs(default, **streams): the first positional or the `seed` keyword; every stream of Rngs is a seed
+                seed_args = [a_ for a_ in n.args[:1] if not isinstance(a_, ast.Starred)] + [k.value for k in n.keywords if k.arg is not None and (d == "flax.nnx.Rngs" or k.arg in ("seed", "x"))]
             if isinstance(f, ast.Attribute) and f.attr == "reset" and any(k.arg == "seed" for k in n.keywords):
-                seed_kw = next(k.value for k in n.keywords if k.arg == "seed")
-            if isinstance(f, ast.Attribute) and f.attr == "seed" and dotted(f).endswith("action_space.seed"):
-                seed_kw = n.args[0] if n.args else ast.Constant(value=None)
+                seed_args = [k.value for k in n.keywords if k.arg == "seed"]
+            space = f.value if isinstance(f, ast.Attribute) and f.attr in ("seed", "sample") else None
+            if isinstance(space, ast.Name) and space.id in local and space.id not in params:
+                space = _alias_root(fn, params, space)     # `space = env.action_space; space.sample()`
+            is_space = isinstance(space, ast.Attribute) and space.attr == "action_space"
+            if is_space and f.attr == "seed":
+                seed_args = [a_ for a_ in n.args[:1] if not isinstance(a_, ast.Starred)] + [k.value for k in n.keywords if k.arg == "seed"]
             # the action space that is seeded / sampled is the one of the environment object the routine was given: a wrapper may
             # define its own action space, so `env.unwrapped.action_space` (or any other detour) is a different generator
-            if isinstance(f, ast.Attribute) and f.attr in ("seed", "sample") and isinstance(f.value, ast.Attribute) and f.value.attr == "action_space":
-                base = f.value.value
-                if isinstance(base, ast.Name) and base.id in params:
-                    ok_sp = True
-                elif isinstance(base, ast.Name):
-                    # a local alias of a parameter / an element of a parameter (vector envs) is the same object
-                    defs_ = [x for x in ast.walk(fn) if isinstance(x, ast.Assign) and any(isinstance(t, ast.Name) and t.id == base.id for t in x.targets)]
-                    ok_sp = None if not defs_ else all(isinstance(x.value, ast.Name) and x.value.id in params for x in defs_) or None
-                elif isinstance(base, ast.Attribute) and base.attr in ("unwrapped", "env") :
-                    ok_sp = False
-                else:
-                    ok_sp = None
+            if is_space:
+                if stepped is None:
+                    stepped = _stepped_environments(fn, params)
+                base = space.value
+                ok_sp, why_sp = _same_environment(fn, params, stepped, base)
                 n_spaces += 1
                 if ok_sp is None:
                     undecided_sets.append(f"{q}: cannot tell which environment object `{short(base, 40)}` is (action space {f.attr})")
                 else:
                     ck.ob("R2-seed-provenance", q, f"action-space:{f.attr}:{short(base, 30)}", ok_sp, f"`{short(n, 60)}`",
-                          "" if ok_sp else f"the action space that is {'seeded' if f.attr == 'seed' else 'sampled'} belongs to `{short(base, 40)}`, not to the environment object the routine steps and samples from: behind an action wrapper the sampled space stays unseeded", where)
-            if is_ctor or seed_kw is not None:
+                          "" if ok_sp else f"the action space that is {'seeded' if f.attr == 'seed' else 'sampled'} belongs to `{short(base, 40)}` ({why_sp}), not to the environment object the routine steps and samples from: behind an action wrapper the sampled space stays unseeded", where)
+            if seed_args is not None:
                 n_rng += 1
-                arg = seed_kw if seed_kw is not None else (n.args[0] if n.args else next((k.value for k in n.keywords if k.arg in ("seed", "default", "params")), None))
-                if arg is None or (isinstance(arg, ast.Constant) and arg.value is None):
-                    ck.ob("R2-seed-provenance", q, f"unseeded:{d or dotted(f)}", False, short(n, 70), "RNG created / seeded without an argument: it draws fresh OS entropy, so two runs differ", where)
+                name_ = d if is_ctor else dotted(f) or short(f, 40)
+                if not seed_args:
+                    if packs:
+                        undecided_sets.append(f"{q}: `{short(n, 50)}` takes its seed from a forwarded argument pack (unrecognised form)")
+                        continue
+                    ck.ob("R2-seed-provenance", q, f"unseeded:{name_}", False, short(n, 70), "RNG created / seeded without an argument: it draws fresh OS entropy, so two runs differ", where)
                     continue
-                # a seed parameter that defaults to None is a seed only where the constructing code passes one
-                if isinstance(arg, ast.Name) and arg.id in params and _default_is_none(fn, arg.id):
-                    for mi2, site, sq in _construction_sites(repo, q):
-                        if any(isinstance(a_, ast.Starred) for a_ in site.args) or any(k.arg is None for k in site.keywords):
-                            continue   # forwarded argument packs: the binding is the caller's
-                        from ..repo import bind_call
-                        b_ = bind_call(fn, site, skip_self=True)
-                        v_ = b_.get(arg.id)
-                        ok_ = v_ is not None and not (isinstance(v_, ast.Constant) and v_.value is None)
-                        ck.ob("R2-seed-provenance", sq, f"constructs:{q.rsplit('.', 2)[-2] if q.endswith('__init__') else fn.name}:{arg.id}", ok_, f"`{short(site, 70)}`",
-                              "" if ok_ else f"`{arg.id}` defaults to None and this call does not pass it: `{short(n, 50)}` then draws fresh OS entropy, so two runs with the same seed differ", loc(mi2, site))
-                calls = [c for c in ast.walk(arg) if isinstance(c, ast.Call) and dotted(c.func) not in ("int", "float", "abs", "hash_seed")]
-                names = {x.id for x in ast.walk(arg) if isinstance(x, ast.Name)}
-                ok = not calls
-                ck.ob("R2-seed-provenance", q, f"seed:{d or dotted(f)}:{short(arg, 30)}", ok, f"`{short(n, 70)}`", "" if ok else f"the seed is computed by a call ({short(calls[0], 40)}): not a function of the routine's seed parameter", where)
+                for arg in seed_args:
+                    if isinstance(arg, ast.Constant) and arg.value is None:
+                        ck.ob("R2-seed-provenance", q, f"unseeded:{name_}", False, short(n, 70), "RNG created / seeded with None: it draws fresh OS entropy, so two runs differ", where)
+                        continue
+                    # a seed parameter that defaults to None is a seed only where the constructing code passes one
+                    if isinstance(arg, ast.Name) and arg.id in params and _default_is_none(fn, arg.id) and _reaches_unchanged(fn, arg):
+                        for mi2, site, sq in _construction_sites(repo, q):
+                            if any(isinstance(a_, ast.Starred) for a_ in site.args) or any(k.arg is None for k in site.keywords):
+                                continue   # forwarded argument packs: the binding is the caller's
+                            b_ = bind_call(fn, site, skip_self=True)
+                            v_ = b_.get(arg.id)
+                            ok_ = v_ is not None and not (isinstance(v_, ast.Constant) and v_.value is None)
+                            ck.ob("R2-seed-provenance", sq, f"constructs:{q.rsplit('.', 2)[-2] if q.endswith('__init__') else fn.name}:{arg.id}", ok_, f"`{short(site, 70)}`",
+                                  "" if ok_ else f"`{arg.id}` defaults to None and this call does not pass it: `{short(n, 50)}` then draws fresh OS entropy, so two runs with the same seed differ", loc(mi2, site))
+                    # a call inside the seed is evidence only where it is a known entropy source; a call that cannot be classified is undecided
+                    bad_c, unk_c = _seed_calls(repo, mi, fn, local, arg)
+                    if unk_c and not bad_c:
+                        undecided_sets.append(f"{q}: the seed of `{short(n, 50)}` passes through `{short(unk_c[0], 40)}` - not known whether that is a function of the routine's seed (unrecognised form)")
+                        continue
+                    ok = not bad_c
+                    ck.ob("R2-seed-provenance", q, f"seed:{name_}:{short(arg, 30)}", ok, f"`{short(n, 70)}`", "" if ok else f"the seed is computed from {bad_c[0][1]} (`{short(bad_c[0][0], 40)}`): not a function of the routine's seed parameter", where)
         # R3: iteration over sets
-        cfg = None
         for n in ast.walk(fn):
             it = None
             if isinstance(n, (ast.For, ast.comprehension)):
@@ -186,6 +235,8 @@ def run(ck, repo: Repo, tier: str):
             if kind is None:
                 continue
             n_sets += 1
+            if kind != "int" and _order_free(n):
+                continue   # consumed by something that does not see the order (all / any / set / sorted / min / max / len, a loop of assertions)
             if kind == "unknown":
                 undecided_sets.append(f"{q}: cannot tell what the set `{short(it, 40)}` holds")
                 continue
@@ -205,6 +256,340 @@ def run(ck, repo: Repo, tier: str):
     bad_src = "import numpy as np\nimport random, time\n\ndef train_x(seed):\n    a = np.random.rand()\n    b = random.random()\n    r = np.random.default_rng()\n    t = time.time()\n    for k in {'a', 'b'}:\n        pass\n"
     hits = _selfcheck(bad_src)
     ck.ob("R1-forbidden-sources", "selftest", "positive-control", hits == {"np.random.rand", "random.random", "default_rng()", "time.time", "set-of-str"}, f"control snippet flagged: {sorted(hits)}", "" if len(hits) == 5 else "the scanner no longer recognises the forbidden patterns", "rlxcheck/props/c09.py")
+
+
+def _root_name(e):
+    while isinstance(e, (ast.Attribute, ast.Subscript, ast.Call)):
+        e = e.func if isinstance(e, ast.Call) else e.value
+    return e.id if isinstance(e, ast.Name) else None
+
+
+def _local_names(fn):
+    """Names bound inside ``fn`` (parameters of it and of its nested functions / lambdas, assigned names, loop and with targets)."""
+    out = set()
+    for n in ast.walk(fn):
+        if isinstance(n, (ast.FunctionDef, ast.AsyncFunctionDef, ast.Lambda)):
+            a = n.args
+            out |= {x.arg for x in a.posonlyargs + a.args + a.kwonlyargs} | ({a.vararg.arg} if a.vararg else set()) | ({a.kwarg.arg} if a.kwarg else set())
+            if n is not fn and not isinstance(n, ast.Lambda):
+                out.add(n.name)
+        elif isinstance(n, ast.Name) and isinstance(n.ctx, (ast.Store, ast.Del)):
+            out.add(n.id)
+    return out
+
+
+def _entropy_source(d):
+    """What a resolved callee draws from when it is a global / OS entropy source, else None."""
+    if d.startswith("numpy.random.") and d.split(".")[2] not in NP_GLOBAL_OK:
+        return "numpy's global RandomState (not seeded by the routine)"
+    if d.startswith("random.") and d not in SEEDED_GENERATORS:
+        return "the stdlib global random generator"
+    if d in ("os.urandom", "os.getrandom", "os.getpid") or d.startswith("uuid.") or d.startswith("secrets."):
+        return "an OS entropy source"
+    return None
+
+
+def _reads_clock(d, call):
+    """True / False / None (unknown member of time / datetime)."""
+    if d in CLOCK_READERS:
+        return True
+    if d in CLOCK_UNLESS_ARGS:
+        if any(isinstance(a_, ast.Starred) for a_ in call.args) or any(k.arg is None for k in call.keywords):
+            return None
+        return len(call.args) + len(call.keywords) < CLOCK_UNLESS_ARGS[d]
+    if d in CLOCK_FREE:
+        return False
+    return None
+
+
+def _logging_sinks(repo):
+    """Method names of the logger interface (read from the repository's LoggerBase) and of progress bars: what they are given ends up
+    in log records / on the terminal, which the property sets aside for wall-clock fields."""
+    out = set(PROGRESS_METHODS)
+    try:
+        for cq in ["rl_blox.logging.logger.LoggerBase"] + repo.subclasses("rl_blox.logging.logger.LoggerBase"):
+            for ch in repo.cls(cq).body:
+                if isinstance(ch, ast.FunctionDef) and not ch.name.startswith("_"):
+                    out.add(ch.name)
+    except AnalysisError:
+        pass
+    return out
+
+
+def _is_log_call(repo, mi, c, sinks, local):
+    f = c.func
+    if isinstance(f, ast.Name):
+        return f.id == "print" and f.id not in local and repo.resolve_name(mi, f.id) is None
+    if not isinstance(f, ast.Attribute):
+        return False
+    d = repo.resolve_expr(mi, f) if _root_name(f) not in local else None
+    if d and (d == "warnings.warn" or d.startswith("logging.") or d.startswith("rl_blox.logging.")):
+        return True
+    if d and repo.has(d):
+        return False      # a function / class of this package: not a logger
+    return f.attr in sinks    # a method of an object (parameter, local, module-level logger / progress bar)
+
+
+def _only_logging(repo, mi, stmts, sinks, local):
+    return all(isinstance(s, ast.Pass) or (isinstance(s, ast.Expr) and isinstance(s.value, ast.Call) and _is_log_call(repo, mi, s.value, sinks, local)) or
+               (isinstance(s, ast.If) and _only_logging(repo, mi, s.body + s.orelse, sinks, local)) for s in stmts)
+
+
+def _value_uses(repo, mi, fn, node, sinks, _seen=None, _local=None):
+    """How the value of the expression ``node`` is consumed inside ``fn``: [(kind, consumer)] with kind 'log' (handed to a logger /
+    print / progress bar / exception message), 'drop' (discarded), 'rng' (seeds a generator), 'test' (decides a branch that holds more
+    than logging) or 'other' (stored, returned, handed to other code: not followed).  Locals are followed flow-insensitively."""
+    seen = set() if _seen is None else _seen
+    local = _local_names(fn) if _local is None else _local
+    out = []
+    cur, p = node, getattr(node, "_parent", None)
+    while True:
+        if p is None or cur is fn:
+            return out + [("other", cur)]
+        if isinstance(p, ast.keyword):
+            cur, p = p, getattr(p, "_parent", None)
+            continue
+        if isinstance(p, ast.Call):
+            if cur is p.func:
+                cur, p = p, getattr(p, "_parent", None)    # a method of the value (total_seconds, timestamp, strftime): still that value
+                continue
+            f = p.func
+            d = repo.resolve_expr(mi, f) if isinstance(f, (ast.Name, ast.Attribute)) and _root_name(f) not in local else None
+            if _is_log_call(repo, mi, p, sinks, local):
+                return out + [("log", p)]
+            if d in RNG_CTORS or d in SEEDED_GENERATORS or (isinstance(f, ast.Attribute) and (f.attr == "reset" and isinstance(cur, ast.keyword) and cur.arg == "seed" or f.attr == "seed")):
+                return out + [("rng", p)]
+            if (isinstance(f, ast.Name) and f.id in VALUE_TRANSPARENT and f.id not in local and repo.resolve_name(mi, f.id) is None) or (d and (d.startswith("time.") or d.startswith("datetime."))) \
+                    or (isinstance(f, ast.Attribute) and f.attr == "format" and isinstance(f.value, ast.Constant)):
+                cur, p = p, getattr(p, "_parent", None)
+                continue
+            return out + [("other", p)]
+        if isinstance(p, ast.IfExp) and cur is p.test:
+            return out + [("test", p)]
+        if isinstance(p, ast.Subscript) and cur is not p.value:
+            return out + [("other", p)]
+        if isinstance(p, ast.NamedExpr):
+            out += _follow_names(repo, mi, fn, p, [p.target], sinks, seen, local)
+            cur, p = p, getattr(p, "_parent", None)
+            continue
+        if isinstance(p, (ast.BinOp, ast.UnaryOp, ast.Compare, ast.BoolOp, ast.JoinedStr, ast.FormattedValue, ast.IfExp, ast.Subscript, ast.Attribute, ast.Tuple, ast.List, ast.Starred)):
+            cur, p = p, getattr(p, "_parent", None)
+            continue
+        if isinstance(p, ast.Expr):
+            return out + [("drop", p)]
+        if isinstance(p, ast.Raise) or (isinstance(p, ast.Assert) and cur is p.msg):
+            return out + [("log", p)]
+        if isinstance(p, (ast.If, ast.While)) and cur is p.test:
+            return out + [("log" if isinstance(p, ast.If) and _only_logging(repo, mi, p.body + p.orelse, sinks, local) else "test", p)]
+        if isinstance(p, (ast.Assign, ast.AnnAssign, ast.AugAssign)) and cur is p.value:
+            tg = p.targets if isinstance(p, ast.Assign) else [p.target]
+            flat = []
+            for t in tg:
+                flat += list(t.elts) if isinstance(t, (ast.Tuple, ast.List)) else [t]
+            if not all(isinstance(t, ast.Name) for t in flat):
+                return out + [("other", p)]
+            return out + _follow_names(repo, mi, fn, p, flat, sinks, seen, local)
+        return out + [("other", p)]
+
+
+def _cfg(fn):
+    cfg = getattr(fn, "_c09_cfg", None)
+    if cfg is None:
+        cfg = fn._c09_cfg = CFG(fn)
+    return cfg
+
+
+def _follow_names(repo, mi, fn, binder, targets, sinks, seen, local):
+    """Uses of the value bound to the local names ``targets`` by the statement / walrus ``binder``: the reads that this definition reaches
+    (the same name bound elsewhere to something else is another value)."""
+    out = []
+    try:
+        cfg = _cfg(fn)
+        dn = cfg.node_of(binder).id
+    except Exception:
+        return [("other", binder)]
+    for t in targets:
+        if not isinstance(t, ast.Name):
+            out.append(("other", t))
+            continue
+        for x in ast.walk(fn):
+            if isinstance(x, ast.Name) and x.id == t.id and isinstance(x.ctx, ast.Load) and id(x) not in seen:
+                try:
+                    reached = any(d.node == dn for d in cfg.defs_of(cfg.node_of(x).id, t.id))
+                except Exception:
+                    out.append(("other", x))
+                    continue
+                if reached:
+                    seen.add(id(x))
+                    out += _value_uses(repo, mi, fn, x, sinks, seen, local)
+    return out
+
+
+def _hash_operand_kind(fn, e, depth=0):
+    """'int' (hash is the value: not salted) / 'str' (salted per process) / 'unknown' for the operand of hash()."""
+    if isinstance(e, ast.Constant):
+        return "int" if isinstance(e.value, (int, float)) and not isinstance(e.value, bool) or isinstance(e.value, bool) else "str" if isinstance(e.value, (str, bytes)) else "unknown"
+    if isinstance(e, ast.JoinedStr):
+        return "str"
+    if isinstance(e, ast.Tuple):
+        ks = {_hash_operand_kind(fn, x, depth + 1) for x in e.elts}
+        return "str" if "str" in ks else "int" if ks <= {"int"} else "unknown"
+    k = _value_kind(fn, getattr(fn, "_parent", None), e, False, depth + 1)
+    return k if k in ("int", "str") else "unknown"
+
+
+def _process_dependent_builtin(repo, mi, fn, call, sinks):
+    """hash(x) / id(x) used as a value.  (True, '') = no result can depend on it; (False, what) = a process-dependent value is used;
+    (None, why) = not decided."""
+    name = call.func.id
+    p = getattr(call, "_parent", None)
+    if name == "id":
+        # id(a) == id(b) is the identity test `a is b`: the same in every run
+        if isinstance(p, ast.Compare) and all(isinstance(x, ast.Call) and isinstance(x.func, ast.Name) and x.func.id == "id" for x in [p.left] + p.comparators) and all(isinstance(o, (ast.Eq, ast.NotEq, ast.Is, ast.IsNot)) for o in p.ops):
+            return True, ""
+        uses = _value_uses(repo, mi, fn, call, sinks)
+        if all(u[0] in ("log", "drop") for u in uses):
+            return True, ""
+        return None, "an object address is used as a value - whether a result depends on it (or only identity bookkeeping) is not decided"
+    kind = _hash_operand_kind(fn, call.args[0])
+    if kind == "int":
+        return True, ""
+    uses = _value_uses(repo, mi, fn, call, sinks)
+    if all(u[0] in ("log", "drop") for u in uses):
+        return True, ""
+    if kind == "str":
+        return False, "a string"
+    return None, "hash() of a value whose type is not known is used as a value"
+
+
+def _seed_calls(repo, mi, fn, local, arg):
+    """(entropy, unknown): the calls inside a seed expression that read a global / OS entropy source or the clock [(call, what)], and
+    those that cannot be classified.  Builtin conversions, array / key library functions, functions of this package (scanned by the same
+    rules) and draws from a generator object (judged where it is constructed) are functions of their arguments."""
+    bad, unk = [], []
+    for c in ast.walk(arg):
+        if not isinstance(c, ast.Call):
+            continue
+        f = c.func
+        root = _root_name(f)
+        if isinstance(f, ast.Name) and (f.id in local or repo.resolve_name(mi, f.id) is None):
+            if f.id in local:
+                unk.append(c)
+            elif f.id in SEED_BUILTINS:
+                continue
+            elif f.id in ("hash", "id") and len(c.args) == 1:
+                k = "str" if f.id == "id" else _hash_operand_kind(fn, c.args[0])
+                if k == "str":
+                    bad.append((c, "a process-dependent value"))
+                elif k != "int":
+                    unk.append(c)
+            else:
+                unk.append(c)
+            continue
+        d = repo.resolve_expr(mi, f) if isinstance(f, (ast.Name, ast.Attribute)) and root not in local else None
+        if d:
+            src = _entropy_source(d)
+            if src is None and (d.startswith("time.") or d.startswith("datetime.")):
+                clock = _reads_clock(d, c)
+                src = "the wall clock" if clock else None
+                if clock is None:
+                    unk.append(c)
+                    continue
+                if clock is False:
+                    continue
+            if src:
+                bad.append((c, src))
+            elif d in RNG_CTORS or d in SEEDED_GENERATORS or d.startswith(SEED_LIBS) or (d.startswith("rl_blox.") and not d.startswith("rl_blox.logging")):
+                continue
+            else:
+                unk.append(c)
+            continue
+        if isinstance(f, ast.Attribute) and f.attr in SEED_METHODS:
+            continue
+        unk.append(c)
+    return bad, unk
+
+
+def _bindings(fn, name):
+    """Every binding of the local ``name`` inside ``fn``: [(kind, value)] with kind 'assign' (value = the assigned expression) or 'other'."""
+    out = []
+    for n in ast.walk(fn):
+        if isinstance(n, ast.Name) and n.id == name and isinstance(n.ctx, (ast.Store, ast.Del)):
+            p = getattr(n, "_parent", None)
+            if isinstance(p, ast.Assign) and any(t is n for t in p.targets):
+                out.append(("assign", p.value))
+            elif isinstance(p, ast.AnnAssign) and p.target is n and p.value is not None:
+                out.append(("assign", p.value))
+            elif isinstance(p, ast.NamedExpr) and p.target is n:
+                out.append(("assign", p.value))
+            else:
+                out.append(("other", p))
+    return out
+
+
+def _alias_root(fn, params, e, depth=0):
+    """``e`` with local names that are plain copies (`x = env`, `x = envs[i]`, helper-expansion temporaries) replaced by what they copy."""
+    if depth > 6:
+        return e
+    if isinstance(e, ast.Name) and e.id not in params:
+        bs = _bindings(fn, e.id)
+        if bs and all(k == "assign" for k, _ in bs):
+            roots = [_alias_root(fn, params, v, depth + 1) for _, v in bs]
+            if len({ast.dump(r) for r in roots}) == 1 and isinstance(roots[0], (ast.Name, ast.Attribute, ast.Subscript)):
+                return roots[0]
+        return e
+    if isinstance(e, ast.Attribute):
+        v = _alias_root(fn, params, e.value, depth + 1)
+        return e if v is e.value else ast.Attribute(value=v, attr=e.attr, ctx=ast.Load())
+    if isinstance(e, ast.Subscript):
+        v = _alias_root(fn, params, e.value, depth + 1)
+        return e if v is e.value else ast.Subscript(value=v, slice=e.slice, ctx=ast.Load())
+    return e
+
+
+def _stepped_environments(fn, params):
+    """Canonical texts of the expressions on which the routine calls step / reset: the environment objects it acts in."""
+    out = set()
+    for n in ast.walk(fn):
+        if isinstance(n, ast.Call) and isinstance(n.func, ast.Attribute) and n.func.attr in ("step", "reset"):
+            out.add(ast.dump(_alias_root(fn, params, n.func.value)))
+    return out
+
+
+def _same_environment(fn, params, stepped, base):
+    """(True, '') when ``base`` is the environment object the routine was given / steps; (False, why) when it is reached from one through
+    a detour that yields another object behind a wrapper; (None, '') when it cannot be told."""
+    b = _alias_root(fn, params, base)
+    self_like = {a.arg for a in (fn.args.posonlyargs + fn.args.args)[:1] if isinstance(getattr(fn, "_parent", None), ast.ClassDef)}
+    def given(x):
+        if ast.dump(x) in stepped:
+            return True
+        if isinstance(x, ast.Subscript):
+            x = x.value       # an element of a given collection of environments
+        return isinstance(x, ast.Name) and x.id in params and x.id not in self_like
+    if given(b):
+        return True, ""
+    x, detour = b, []
+    while isinstance(x, ast.Attribute) and x.attr in ("unwrapped", "env"):
+        detour.append(x.attr)
+        x = x.value
+    if detour and given(x):
+        return False, f"`.{'.'.join(reversed(detour))}` of the environment `{short(x, 30)}`"
+    return None, ""
+
+
+def _reaches_unchanged(fn, name_node):
+    """The parameter read at ``name_node`` is never rebound in the routine and the read is not under a test of that parameter
+    (`if seed is None: seed = ...` / `... if seed is not None else ...` give the constructor something else than the default)."""
+    nm = name_node.id
+    if _bindings(fn, nm):
+        return False
+    child, p = name_node, getattr(name_node, "_parent", None)
+    while p is not None and p is not fn:
+        if isinstance(p, (ast.If, ast.IfExp, ast.While)) and child is not p.test and any(isinstance(x, ast.Name) and x.id == nm for x in ast.walk(p.test)):
+            return False
+        child, p = p, getattr(p, "_parent", None)
+    return True
 
 
 def _uninitialised_reads(ck, repo, funcs):
@@ -254,6 +639,8 @@ def _uninitialised_reads(ck, repo, funcs):
                 for r_ in roots:
                     for x in ast.walk(r_):
                         if isinstance(x, ast.Subscript) and isinstance(x.value, ast.Subscript) and dotted(x.value.value) in stor and not isinstance(x.ctx, ast.Store) or (x is tgt and isinstance(s_, ast.AugAssign) and isinstance(x, ast.Subscript) and isinstance(x.value, ast.Subscript) and dotted(x.value.value) in stor):
+                            if isinstance(getattr(x, "_parent", None), ast.Attribute) and x._parent.value is x and x._parent.attr in ("shape", "dtype", "ndim", "size", "itemsize", "nbytes"):
+                                continue    # the geometry of the slot, not its content
                             reads.append((nd, x))
             if not stores:
                 continue
@@ -274,6 +661,17 @@ def _uninitialised_reads(ck, repo, funcs):
                         if a_ in ri:
                             avoid |= set(ids)
                     if nd.id in avoid or cfg.paths_avoiding(nd.id, sn.id, avoid) is None:
+                        continue
+                    # a store to the same field of the same slot that every path to the read passes, with the position unchanged in between:
+                    # the read sees this method's own write (read-back inside the writing loop)
+                    rk = nf.poly(x.value.slice, sc, nd.id).canon()
+                    covered = False
+                    for cn, ct in stores:
+                        if cn.id == nd.id or dotted(ct.value.value) != dotted(x.value.value) or nf.poly(ct.slice, sc, cn.id).canon() != ri or nf.poly(ct.value.slice, sc, cn.id).canon() != rk:
+                            continue
+                        if cfg.dominates(cn.id, nd.id) and not any(w != cn.id and cfg.paths_avoiding(cn.id, w, {cn.id}) is not None and (w == nd.id or cfg.paths_avoiding(w, nd.id, {cn.id}) is not None) for w in avoid):
+                            covered = True
+                    if covered:
                         continue
                     # is the read guarded by the fill state?
                     guarded = False
@@ -322,10 +720,36 @@ def _construction_sites(repo, q):
     return out
 
 
+ORDER_BLIND = {"all", "any", "set", "frozenset", "sorted", "min", "max", "len"}
+
+
+def _order_free(n):
+    """The traversal at ``n`` (for loop / comprehension clause / list()-like call / star-unpacking) is consumed by something whose result
+    is the same for every order of the elements."""
+    def blind_call(c, arg):
+        return isinstance(c, ast.Call) and isinstance(c.func, ast.Name) and c.func.id in ORDER_BLIND and len(c.args) == 1 and c.args[0] is arg and not c.keywords
+    if isinstance(n, ast.comprehension):
+        comp = getattr(n, "_parent", None)
+        if isinstance(comp, ast.SetComp):
+            return True
+        return isinstance(comp, (ast.GeneratorExp, ast.ListComp)) and blind_call(getattr(comp, "_parent", None), comp)
+    if isinstance(n, ast.For):
+        def checks_only(stmts):
+            return all(isinstance(s, (ast.Assert, ast.Pass, ast.Raise)) or (isinstance(s, ast.If) and checks_only(s.body + s.orelse)) for s in stmts)
+        return not n.orelse and checks_only(n.body)
+    if isinstance(n, ast.Call):
+        return blind_call(getattr(n, "_parent", None), n)
+    if isinstance(n, ast.Starred):
+        return isinstance(getattr(n, "_parent", None), ast.Set)
+    return False
+
+
 def _one_iteration(ck, repo, fn, mi, q, n, it, undecided_sets):
     kind = _set_kind(repo, fn, mi, it)
     if kind is None:
         return
+    if kind != "int" and isinstance(n, ast.Call) and n.func.id == "map" and len(n.args) == 2 and _order_free(n):
+        return     # one iterable mapped into an order-blind consumer (zip pairs by position: the order matters whatever consumes it)
     if kind == "unknown":
         undecided_sets.append(f"{q}: cannot tell what the set `{short(it, 40)}` holds")
         return
@@ -358,31 +782,30 @@ def _set_kind_(repo, fn, mi, it, _seen):
     name = dotted(e)
     if not name:
         return None
-    # find the defining assignments of the variable / attribute inside this function or class
-    scope = fn
-    if name.startswith("self."):
-        p = getattr(fn, "_parent", None)
-        scope = p if isinstance(p, ast.ClassDef) else fn
+    # find the defining assignments of the variable (those that reach this use) / of the attribute (in the class and the classes it inherits from)
+    scopes = _class_scopes(repo, fn) if name.startswith("self.") else [fn]
+    assigns = [n for scope in scopes for n in ast.walk(scope) if isinstance(n, ast.Assign) and any(dotted(t) == name for t in n.targets)]
+    if isinstance(e, ast.Name):
+        assigns = _reaching_assigns(fn, e, assigns)
     kinds = []
-    for n in ast.walk(scope):
-        if isinstance(n, ast.Assign) and any(dotted(t) == name for t in n.targets):
-            v = n.value
-            if isinstance(v, ast.Set):
-                kinds.append(_elem_kind(v.elts))
-            elif isinstance(v, ast.SetComp):
-                kinds.append(_elem_kind([v.elt]))
-            elif isinstance(v, ast.Call) and isinstance(v.func, ast.Name) and v.func.id in ("set", "frozenset"):
-                kinds.append(_ctor_kind(v))
-            elif isinstance(v, ast.BinOp) and isinstance(v.op, (ast.Sub, ast.BitOr, ast.BitAnd)) and any(isinstance(x, ast.Call) and isinstance(x.func, ast.Name) and x.func.id == "set" for x in ast.walk(v)):
-                kinds.append("int" if all(_ctor_kind(x) == "int" for x in ast.walk(v) if isinstance(x, ast.Call) and isinstance(x.func, ast.Name) and x.func.id == "set") else "unknown")
-            elif isinstance(v, ast.Call) and dotted(v.func) == "copy.deepcopy" and v.args:
-                k = _set_kind(repo, fn, mi, v.args[0], _seen)
-                if k:
-                    kinds.append(k)
-            elif isinstance(v, ast.Name):
-                k = _set_kind(repo, fn, mi, v, _seen) if v.id != name else None
-                if k:
-                    kinds.append(k)
+    for n in assigns:
+        v = n.value
+        if isinstance(v, ast.Set):
+            kinds.append(_elem_kind(v.elts))
+        elif isinstance(v, ast.SetComp):
+            kinds.append(_elem_kind([v.elt]))
+        elif isinstance(v, ast.Call) and isinstance(v.func, ast.Name) and v.func.id in ("set", "frozenset"):
+            kinds.append(_ctor_kind(v))
+        elif isinstance(v, ast.BinOp) and isinstance(v.op, (ast.Sub, ast.BitOr, ast.BitAnd)) and any(isinstance(x, ast.Call) and isinstance(x.func, ast.Name) and x.func.id == "set" for x in ast.walk(v)):
+            kinds.append("int" if all(_ctor_kind(x) == "int" for x in ast.walk(v) if isinstance(x, ast.Call) and isinstance(x.func, ast.Name) and x.func.id == "set") else "unknown")
+        elif isinstance(v, ast.Call) and dotted(v.func) == "copy.deepcopy" and v.args:
+            k = _set_kind(repo, fn, mi, v.args[0], _seen)
+            if k:
+                kinds.append(k)
+        elif isinstance(v, ast.Name):
+            k = _set_kind(repo, fn, mi, v, _seen) if v.id != name else None
+            if k:
+                kinds.append(k)
     if not kinds and isinstance(e, ast.Name) and e.id not in param_names(fn):
         # a module-level constant
         for n in mi.tree.body:
@@ -428,16 +851,87 @@ def _set_kind_(repo, fn, mi, it, _seen):
         return None
     if all(k == "int" for k in kinds):
         # additions must be ints as well
-        for n in ast.walk(scope):
+        for n in (x for scope in scopes for x in ast.walk(scope)):
             if isinstance(n, ast.Call) and isinstance(n.func, ast.Attribute) and n.func.attr in ("add", "update") and dotted(n.func.value) == name and n.args:
                 owner = n
                 while owner is not None and not isinstance(owner, ast.FunctionDef):
                     owner = getattr(owner, "_parent", None)
-                k = _value_kind(owner or fn, scope, n.args[0], n.func.attr == "update", set_kind=lambda it_, f_=owner or fn: _set_kind(repo, f_, mi, it_, _seen))
+                k = _value_kind(owner or fn, _owner_class(owner or fn), n.args[0], n.func.attr == "update", set_kind=lambda it_, f_=owner or fn: _set_kind(repo, f_, mi, it_, _seen))
                 if k != "int":
                     return k
         return "int"
     return "str" if "str" in kinds else "unknown"
+
+
+def _owner_class(fn):
+    p = getattr(fn, "_parent", None)
+    while p is not None and not isinstance(p, (ast.ClassDef, ast.Module)):
+        p = getattr(p, "_parent", None)
+    return p if isinstance(p, ast.ClassDef) else fn
+
+
+def _class_scopes(repo, fn):
+    """The class of the method ``fn`` and the repository classes it inherits from (an attribute may be initialised in a base class / mixin)."""
+    p = _owner_class(fn)
+    if not isinstance(p, ast.ClassDef):
+        return [fn]
+    out = [p]
+    try:
+        mi = fn._module
+        for cq in repo.mro(repo.canonical(f"{mi.name}.{p.name}", p))[1:]:
+            c = repo.cls(cq)
+            if all(c is not x for x in out):
+                out.append(c)
+    except Exception:
+        pass
+    return out
+
+
+def _methods_along_mro(fn, cls_scope):
+    """(class, method) for the methods of the class and of the repository classes it inherits from."""
+    classes = [cls_scope]
+    if _REPO is not None and getattr(fn, "_module", None) is not None and _owner_class(fn) is cls_scope:
+        classes = _class_scopes(_REPO, fn)
+    return [(c, m) for c in classes for m in c.body if isinstance(m, ast.FunctionDef)]
+
+
+def _reaching_assigns(fn, use, assigns):
+    """Of the assignments to the local name read at ``use``, those whose definition reaches the use (a name that is re-bound, e.g. to a
+    sorted list, is no longer the set); all of them when the use cannot be located in the routine's control-flow graph."""
+    try:
+        cfg = _cfg(fn)
+        at = cfg.node_of(use)
+        ds = cfg.defs_of(at.id, use.id)
+    except Exception:
+        return assigns
+    if not ds:
+        return assigns
+    reach = {id(cfg.nodes[d.node].ast) for d in ds}
+    return [a for a in assigns if id(a) in reach]
+
+
+def _instances_hashed_by_identity(fn, call):
+    """True when ``call`` constructs an instance of a repository class that inherits object's hash (no __hash__ / __eq__, not a
+    NamedTuple / dataclass / Enum); False when the class defines value hashing; None when the callee is not a known class."""
+    repo, mi = _REPO, getattr(fn, "_module", None)
+    if repo is None or mi is None or not isinstance(call.func, (ast.Name, ast.Attribute)):
+        return None
+    try:
+        r = repo.resolve_expr(mi, call.func)
+        if not r or not r.startswith("rl_blox."):
+            return None
+        for cq in repo.mro(r):
+            c = repo.cls(cq)
+            if c.decorator_list or any(isinstance(m, ast.FunctionDef) and m.name in ("__hash__", "__eq__") for m in c.body):
+                return False
+            if any(not (repo.resolve_expr(c._module, b) or "").startswith("rl_blox.") and dotted(b) not in ("object", "abc.ABC", "ABC") for b in c.bases) or c.keywords:
+                return None      # an external base (NamedTuple, Enum, nnx.Module, ...): its hashing is not read
+        return True
+    except Exception:
+        return None
+
+
+_REPO = None
 
 
 def _value_kind(fn, cls_scope, e, is_iterable=False, depth=0, set_kind=None):
@@ -455,7 +949,9 @@ def _value_kind(fn, cls_scope, e, is_iterable=False, depth=0, set_kind=None):
             return "int"
         if d in ("str", "repr") or d.endswith(".format") or d.endswith(".join"):
             return "str"
-        if d and d[:1].isupper() or d in ("copy.deepcopy", "deepcopy", "object"):
+        if d in ("copy.deepcopy", "deepcopy", "copy.copy", "copy") and len(e.args) == 1:
+            return _value_kind(fn, cls_scope, e.args[0], is_iterable, depth + 1, set_kind)    # a copy hashes like the original
+        if d == "object" or _instances_hashed_by_identity(fn, e):
             return "object"
         return "unknown"
     if isinstance(e, ast.BinOp) and isinstance(e.op, (ast.Add, ast.Sub, ast.Mult, ast.Mod, ast.FloorDiv)):
@@ -465,7 +961,8 @@ def _value_kind(fn, cls_scope, e, is_iterable=False, depth=0, set_kind=None):
     # a value on which a non-builtin method is called is an object instance (hashed by identity unless its class says otherwise)
     _BUILTIN_METHODS = set(dir(int)) | set(dir(str)) | set(dir(float)) | {"item", "tolist", "astype"}
     if name:
-        for scope_ in ([fn] + ([cls_scope] if isinstance(cls_scope, ast.ClassDef) else [])):
+        # (a local name means the same thing only inside its own routine; an attribute of self in the whole class)
+        for scope_ in ([fn] + ([cls_scope] if isinstance(cls_scope, ast.ClassDef) and name.startswith("self.") else [])):
             for n in ast.walk(scope_):
                 if isinstance(n, ast.Call) and isinstance(n.func, ast.Attribute) and n.func.attr not in _BUILTIN_METHODS and ast.dump(n.func.value) == ast.dump(e):
                     return "object"
@@ -473,8 +970,7 @@ def _value_kind(fn, cls_scope, e, is_iterable=False, depth=0, set_kind=None):
         # parameter annotated int / local with one kind of definition
         for a in fn.args.posonlyargs + fn.args.args + fn.args.kwonlyargs:
             if a.arg == e.id:
-                ann = ast.unparse(a.annotation) if a.annotation is not None else ""
-                return "int" if ann in ("int", "np.integer", "int | None") else "str" if ann == "str" else "unknown"
+                return _annotation_kind(a.annotation)
         ks = set()
         for n in ast.walk(fn):
             if isinstance(n, ast.Assign) and any(isinstance(t, ast.Name) and t.id == e.id for t in n.targets):
@@ -489,33 +985,62 @@ def _value_kind(fn, cls_scope, e, is_iterable=False, depth=0, set_kind=None):
         return ks.pop() if len(ks) == 1 else "unknown"
     if isinstance(e, ast.Attribute) and name and name.startswith("self.") and isinstance(cls_scope, ast.ClassDef):
         ks = set()
-        for m in cls_scope.body:
-            if not isinstance(m, ast.FunctionDef):
-                continue
+        for cls_, m in _methods_along_mro(fn, cls_scope):
             for n in ast.walk(m):
                 if isinstance(n, ast.Assign) and any(dotted(t) == name for t in n.targets):
-                    ks.add(_value_kind(m, cls_scope, n.value, False, depth + 1))
+                    ks.add(_value_kind(m, cls_, n.value, False, depth + 1))
         return ks.pop() if len(ks) == 1 else "unknown"
     if isinstance(e, ast.Subscript):
         base = dotted(e.value)
-        for scope_ in ([fn] + ([cls_scope] if isinstance(cls_scope, ast.ClassDef) else [])):
+        for scope_ in ([fn] + ([cls_scope] if isinstance(cls_scope, ast.ClassDef) and base.startswith("self.") else [])):
             for n in ast.walk(scope_):
                 if isinstance(n, ast.Call) and isinstance(n.func, ast.Attribute) and n.func.attr not in _BUILTIN_METHODS and isinstance(n.func.value, ast.Subscript) and dotted(n.func.value.value) == base and base:
                     return "object"
         if base and base.startswith("self.") and isinstance(cls_scope, ast.ClassDef):
             # element of a container attribute: what are its elements?
-            for m in cls_scope.body:
-                if not isinstance(m, ast.FunctionDef):
-                    continue
+            for cls_, m in _methods_along_mro(fn, cls_scope):
                 for n in ast.walk(m):
                     if isinstance(n, ast.Assign) and any(dotted(t) == base for t in n.targets):
                         v = n.value
                         elts = v.elts if isinstance(v, (ast.List, ast.Tuple)) else [v.elt] if isinstance(v, (ast.ListComp, ast.GeneratorExp)) else None
                         if elts is not None and elts:
-                            ks = {_value_kind(m, cls_scope, x, False, depth + 1) for x in elts}
+                            ks = {_value_kind(m, cls_, x, False, depth + 1) for x in elts}
                             return ks.pop() if len(ks) == 1 else "unknown"
+        if isinstance(e.value, ast.Name) and set_kind is not None:
+            # element of a local sequence made from a set (`members = list(pool)`): what the set holds
+            ks = set()
+            for k_, v in _bindings(fn, e.value.id):
+                if k_ == "assign" and isinstance(v, ast.Call) and isinstance(v.func, ast.Name) and v.func.id in ("list", "tuple", "sorted") and len(v.args) == 1:
+                    ks.add(set_kind(v.args[0]) or "unknown")
+                else:
+                    ks.add("unknown")
+            if len(ks) == 1 and ks <= {"int", "str"}:
+                return ks.pop()
         return "unknown"
     return "unknown"
+
+
+def _annotation_kind(ann):
+    """'int' / 'str' / 'unknown' from a parameter annotation: every alternative (Optional / Union / `|`, None aside) names an integer resp. string type."""
+    if ann is None:
+        return "unknown"
+    if isinstance(ann, ast.Constant) and isinstance(ann.value, str):
+        try:
+            ann = ast.parse(ann.value, mode="eval").body
+        except SyntaxError:
+            return "unknown"
+    alts, todo = [], [ann]
+    while todo:
+        a = todo.pop()
+        if isinstance(a, ast.BinOp) and isinstance(a.op, ast.BitOr):
+            todo += [a.left, a.right]
+        elif isinstance(a, ast.Subscript) and dotted(a.value).rsplit(".", 1)[-1] in ("Optional", "Union"):
+            todo += list(a.slice.elts) if isinstance(a.slice, ast.Tuple) else [a.slice]
+        elif not (isinstance(a, ast.Constant) and a.value is None):
+            alts.append(dotted(a).rsplit(".", 1)[-1] if dotted(a) else "?")
+    if alts and all(x in ("int", "integer", "int8", "int16", "int32", "int64", "uint8", "uint16", "uint32", "uint64", "intp") for x in alts):
+        return "int"
+    return "str" if alts and all(x == "str" for x in alts) else "unknown"
 
 
 def _elem_kind(elts):
@@ -576,10 +1101,32 @@ MUTANTS = [
     {"id": "c09-read-evicted-slot", "file": "rl_blox/blox/replay_buffer.py", "rule": "R5", "nth": 0, "find": "        for k, v in sample.items():\n            self.buffer[k][self.insert_idx] = v\n        self.insert_idx", "replace": "        self.evicted_ = {k: np.array(self.buffer[k][self.insert_idx]) for k in sample}\n        for k, v in sample.items():\n            self.buffer[k][self.insert_idx] = v\n        self.insert_idx"},
     {"id": "c09-zip-name-set", "file": _A + "sac.py", "rule": "R3", "edits": [("    while step < total_timesteps:\n", "    while step < total_timesteps:\n        key, *sub_ = jax.random.split(key, 3)\n        named_ = dict(zip({\"action\", \"critic\"}, sub_))\n")]},
     {"id": "c09-uuid", "file": "rl_blox/blox/mapb.py", "rule": "R1", "edits": [("import numpy as np", "import uuid\n\nimport numpy as np"), ("            arm_idx = len(self.rewards) % self.n_arms\n", "            arm_idx = (len(self.rewards) + uuid.uuid4().int * 0) % self.n_arms\n")]},
+    {"id": "c09-space-seed-none-kw", "file": _A + "td3.py", "rule": "R2", "find": "    env.action_space.seed(seed)", "replace": "    env.action_space.seed(seed=None)"},
+    {"id": "c09-ctor-seed-default-none", "file": "rl_blox/blox/mapb.py", "rule": "R2", "edits": [("    def __init__(self, n_arms, upper_bound, gamma, zeta=0.002, verbose=0):\n", "    def __init__(self, n_arms, upper_bound, gamma, zeta=0.002, verbose=0, seed=None):\n        self.rng_ = np.random.default_rng(seed)\n"),
+        ("            arm_idx = len(self.rewards) % self.n_arms\n", "            arm_idx = int(self.rng_.integers(self.n_arms))\n")]},
+    {"id": "c09-ctor-seed-some-sites", "file": "rl_blox/blox/mapb.py", "rule": "R2", "edits": [("    def __init__(self, n_arms, upper_bound, gamma, zeta=0.002, verbose=0):\n", "    def __init__(self, n_arms, upper_bound, gamma, zeta=0.002, verbose=0, seed=None):\n        self.rng_ = np.random.default_rng(seed)\n"),
+        ("            arm_idx = len(self.rewards) % self.n_arms\n", "            arm_idx = int(self.rng_.integers(self.n_arms))\n"), ("class DUCB:\n", "def make_seeded_ducb_(n_arms, seed):\n    return DUCB(n_arms, 1.0, 0.9, seed=seed)\n\n\nclass DUCB:\n")]},
+    {"id": "c09-time-branch", "file": _A + "td3.py", "rule": "R4", "edits": [("import chex\nimport gymnasium as gym", "import time\n\nimport chex\nimport gymnasium as gym"), ("        if step < learning_starts:\n            action = env.action_space.sample()", "        if step < learning_starts or time.time() % 2 < 1e-9:\n            action = env.action_space.sample()")]},
+    {"id": "c09-time-local-branch", "file": _A + "td3.py", "rule": "R4", "edits": [("import chex\nimport gymnasium as gym", "import time\n\nimport chex\nimport gymnasium as gym"), ("    while step < total_timesteps:\n", "    t0_ = time.monotonic()\n    while step < total_timesteps:\n        elapsed_ = time.monotonic() - t0_\n        if elapsed_ > 3600.0:\n            break\n")]},
+    {"id": "c09-hash-str-seed", "file": _A + "ddpg.py", "rule": "R", "find": "    rng = np.random.default_rng(seed)", "replace": "    rng = np.random.default_rng(seed + hash(\"ddpg\") % 7)"},
+    {"id": "c09-pid-seed", "file": _A + "ddpg.py", "rule": "R2", "edits": [("import chex\n", "import os\n\nimport chex\n"), ("    rng = np.random.default_rng(seed)", "    rng = np.random.default_rng(seed + os.getpid() % 2)")]},
+    {"id": "c09-read-before-store-in-loop", "file": "rl_blox/blox/replay_buffer.py", "rule": "R5", "nth": 0, "find": "        for k, v in sample.items():\n            self.buffer[k][self.insert_idx] = v\n        self.insert_idx", "replace": "        self.evicted_ = {}\n        for k, v in sample.items():\n            self.evicted_[k] = np.array(self.buffer[k][self.insert_idx])\n            self.buffer[k][self.insert_idx] = v\n        self.insert_idx"},
 ]
 BENIGN = [
     {"id": "c09-b-read-after-store", "file": "rl_blox/blox/replay_buffer.py", "nth": 0, "find": "        for k, v in sample.items():\n            self.buffer[k][self.insert_idx] = v\n        self.insert_idx", "replace": "        for k, v in sample.items():\n            self.buffer[k][self.insert_idx] = v\n        self.last_added_ = {k: np.array(self.buffer[k][self.insert_idx]) for k in sample}\n        self.insert_idx"},
     {"id": "c09-b-zip-name-tuple", "file": _A + "sac.py", "edits": [("    while step < total_timesteps:\n", "    while step < total_timesteps:\n        key, *sub_ = jax.random.split(key, 3)\n        named_ = dict(zip((\"action\", \"critic\"), sub_))\n")]},
     {"id": "c09-b-seed-arith", "file": _A + "td3.py", "find": "    rng = np.random.default_rng(seed)", "replace": "    rng = np.random.default_rng(seed + 17)"},
     {"id": "c09-b-key-literal", "file": _A + "pets.py", "find": "        key=jax.random.key(seed),", "replace": "        key=jax.random.key(2 * seed + 1),"},
+    # audit: forms the rules must read by meaning
+    {"id": "c09-b-space-seed-keyword", "file": _A + "td3.py", "find": "    env.action_space.seed(seed)", "replace": "    env.action_space.seed(seed=seed)"},
+    {"id": "c09-b-seed-through-asarray", "file": _A + "td3.py", "edits": [("    rng = np.random.default_rng(seed)", "    rng = np.random.default_rng(np.asarray(seed).item())"), ("        nnx.Rngs(seed),", "        nnx.Rngs(default=seed),")]},
+    {"id": "c09-b-wall-time-logged", "file": _A + "td3.py", "edits": [("import chex\nimport gymnasium as gym", "import time\n\nimport chex\nimport gymnasium as gym"), ("    while step < total_timesteps:\n", "    t0_ = time.perf_counter()\n    while step < total_timesteps:\n"),
+        ("                logger.record_stat(\"return\", accumulated_reward, step=step + 1)\n", "                logger.record_stat(\"return\", accumulated_reward, step=step + 1)\n                elapsed_ = time.perf_counter() - t0_\n                logger.record_stat(\"wall time\", round(elapsed_, 3), step=step + 1)\n                if elapsed_ > 60.0:\n                    print(f\"slow run: {elapsed_:.1f}s\")\n")]},
+    {"id": "c09-b-key-set-checks", "file": "rl_blox/blox/replay_buffer.py", "nth": 0, "find": "        for k, v in sample.items():\n            self.buffer[k][self.insert_idx] = v\n        self.insert_idx", "replace": "        known_ = {\"observation\", \"reward\"}\n        for k_ in known_:\n            assert isinstance(k_, str)\n        assert all(isinstance(k_, str) for k_ in known_)\n        n_known_ = len(list(known_))\n        known_ = sorted(known_)\n        for k_ in known_:\n            n_known_ -= 1\n        for k, v in sample.items():\n            self.buffer[k][self.insert_idx] = v\n        self.insert_idx"},
+    {"id": "c09-b-read-back-in-loop", "file": "rl_blox/blox/replay_buffer.py", "nth": 0, "find": "        for k, v in sample.items():\n            self.buffer[k][self.insert_idx] = v\n        self.insert_idx", "replace": "        for k, v in sample.items():\n            shape_ = self.buffer[k][self.insert_idx].shape\n            self.buffer[k][self.insert_idx] = v\n            self.last_written_ = self.buffer[k][self.insert_idx]\n        self.insert_idx"},
+    {"id": "c09-b-identity-assert", "file": _A + "td3.py", "find": "    q = ContinuousClippedDoubleQNet(q1, q2)\n", "replace": "    assert id(q1) != id(q2), f\"shared critic {id(q1)}\"\n    n_streams_ = hash(2) % 3\n    q = ContinuousClippedDoubleQNet(q1, q2)\n"},
+    {"id": "c09-b-ctor-seed-none-replaced", "file": "rl_blox/blox/mapb.py", "edits": [("    def __init__(self, n_arms, upper_bound, gamma, zeta=0.002, verbose=0):\n", "    def __init__(self, n_arms, upper_bound, gamma, zeta=0.002, verbose=0, seed=None):\n        if seed is None:\n            seed = 0\n        self.rng_ = np.random.default_rng(seed)\n")]},
+    {"id": "c09-b-ctor-seed-none-replaced-some-sites", "file": "rl_blox/blox/mapb.py", "edits": [("    def __init__(self, n_arms, upper_bound, gamma, zeta=0.002, verbose=0):\n", "    def __init__(self, n_arms, upper_bound, gamma, zeta=0.002, verbose=0, seed=None):\n        if seed is None:\n            seed = 0\n        self.rng_ = np.random.default_rng(seed)\n"),
+        ("class DUCB:\n", "def make_seeded_ducb_(n_arms, seed):\n    return DUCB(n_arms, 1.0, 0.9, seed=seed)\n\n\nclass DUCB:\n")]},
+    {"id": "c09-b-timedelta", "file": _A + "td3.py", "edits": [("import chex\nimport gymnasium as gym", "import datetime\n\nimport chex\nimport gymnasium as gym"), ("    while step < total_timesteps:\n", "    budget_ = datetime.timedelta(seconds=60).total_seconds()\n    while step < total_timesteps:\n")]},
 ]
